@@ -396,6 +396,100 @@ def near_misses(rnd, f, n):
     return out
 
 
+# ------------------------------------------------------------------------------------------ through main(): several files, inline content
+def cli_counts(argv, cwd):
+    """`python -m norminette -f json <argv>` in a process of its own -> [(file name, INVALID_HEADER count)] or an error text"""
+    code, out, err, exc = impl.run_main_subprocess(["-f", "json"] + list(argv), cwd=cwd, limit=60.0)
+    try:
+        js = json.loads(out)
+        return [(os.path.basename(x["path"]), sum(1 for e_ in x["errors"] if e_["name"] == "INVALID_HEADER")) for x in js["files"]]
+    except (ValueError, KeyError, TypeError):
+        return "exit %r: %s %s" % (code, out[-200:], err[-300:])
+
+
+def run_sequence(files):
+    """files: [(name, src)] written to a fresh directory and given to ONE run in this order -> per-file counts"""
+    import shutil
+    import tempfile
+    d = tempfile.mkdtemp(prefix="nvc13_")
+    try:
+        for nme, src in files:
+            with open(os.path.join(d, nme), "w", newline="") as fh:
+                fh.write(src)
+        return cli_counts([nme for nme, _ in files], d)
+    finally:
+        shutil.rmtree(d, ignore_errors=True)
+
+
+def run_inline(name, src):
+    opt = "--hfile=" if name.endswith(".h") else "--cfile="
+    return cli_counts([opt + src, "--filename=" + name], None)
+
+
+def cli_file_set(rnd, f):
+    """the files of one field set: comments-only files with a VALID header, a clean file, one file per mutation class"""
+    t = "".join(l + "\n" for l in template(f))
+    muts = dict(mutations(rnd, f, True))
+    pick = lambda pre: rnd.choice([k for k in muts if k.startswith(pre)])  # noqa: E731
+    files = {"v.h": t, "v2.c": t + "/* nothing else */\n", "c.c": t + MIN_BODY,
+             "d1.c": muts[pick("Hm1")] + MIN_BODY, "d2.c": muts[pick("Hm2")] + MIN_BODY, "d3.c": muts[pick("Hm3")] + MIN_BODY,
+             "d4.c": muts[pick("Hm4")] + MIN_BODY, "d5.c": muts[pick("Hm5")] + MIN_BODY, "d6.c": muts[pick("Hm6")] + MIN_BODY,
+             "d7.h": muts[pick("Hm7")] + "\n#ifndef D7_H\n# define D7_H\n\nint\tmain(void);\n\n#endif\n",
+             "d8.c": muts[pick("Hm8")] + MIN_BODY}
+    return files
+
+
+def cli_routes(run, rnd, tier, replay_data=None):
+    """(a) the INVALID_HEADER count of a file does not depend on the other files of the run, (b) nor on the route
+    (file on disk / inline content)"""
+    found = False
+    jobs = []          # ("alone"|"seq"|"inline", key, payload)
+    if replay_data is not None:
+        sets = [None]
+    else:
+        sets = [rand_fields(rnd, i) for i in (range(5) if tier == "quick" else range(40))]
+    results = []
+    with ThreadPoolExecutor(8) as ex:
+        for f in sets:
+            if replay_data is not None:
+                files = dict(replay_data["files"])
+                seqs = [replay_data["order"]] if replay_data["route"] == "sequence" else []
+                inl = [replay_data["order"][0]] if replay_data["route"] == "inline" else []
+            else:
+                files = cli_file_set(rnd, f)
+                dm = [k for k in files if k.startswith("d")]
+                x, y, z = rnd.sample(dm, 3)
+                seqs = [["v.h", "d6.c"], ["d6.c", "v.h"], ["v2.c", "d7.h"], ["v.h", "d8.c"], ["c.c", x], [x, "c.c"], [y, z], [z, y],
+                        ["v.h", "v2.c", x], [x, "v.h", y], ["v.h", "c.c"], ["c.c", "v.h", "d3.c"]]
+                inl = ["c.c", "d3.c"] + rnd.sample([k for k in dm if k != "d3.c"], 4 if tier == "quick" else 7)
+            alone = {k: ex.submit(run_sequence, [(k, files[k])]) for k in files}
+            sq = [(o, ex.submit(run_sequence, [(k, files[k]) for k in o])) for o in seqs]
+            il = [(k, ex.submit(run_inline, k, files[k])) for k in inl]
+            results.append((f, files, alone, sq, il))
+        for f, files, alone, sq, il in results:
+            al = {k: v.result() for k, v in alone.items()}
+            bad = [k for k, v in al.items() if isinstance(v, str)]
+            if bad:
+                found |= run.violation("main-run-failed", {"route": "alone", "files": [[k, files[k]] for k in bad], "order": bad, "output": al[bad[0]], "fields": f})
+                continue
+            al = {k: v[0][1] for k, v in al.items()}
+            for order, fut in sq:
+                got = fut.result()
+                exp = [(k, al[k]) for k in order]
+                run.count("several files in one run: counts equal the counts alone", 1, 1)
+                if got != exp:
+                    found |= run.violation("count-depends-on-the-other-files-of-the-run",
+                                           {"route": "sequence", "order": order, "files": [[k, files[k]] for k in order], "alone": exp,
+                                            "in_this_run": got, "fields": f})
+            for k, fut in il:
+                got = fut.result()
+                run.count("inline content (--cfile/--hfile): count equals the file route", 1, 1)
+                if got != [(k, al[k])]:
+                    found |= run.violation("inline-content-differs-from-the-file-route",
+                                           {"route": "inline", "order": [k], "files": [[k, files[k]]], "file_route": al[k], "inline_route": got, "fields": f})
+    return found
+
+
 # ------------------------------------------------------------------------------------------ the check
 def run(run, tier, seed, replay=None):
     b = common.build(["C13"], need_driver=False)
@@ -407,6 +501,10 @@ def run(run, tier, seed, replay=None):
     regex_texts = []  # texts for correspondence (i)
     tpl_cases = []
 
+    if replay is not None and replay["data"].get("route") in ("sequence", "inline", "alone"):
+        found |= cli_routes(run, rnd, tier, replay["data"])
+    elif replay is None:
+        found |= cli_routes(run, random.Random(seed * 7919 + 13), tier)
     if replay is not None:
         d = replay["data"]
         if "src" in d:
@@ -461,7 +559,12 @@ def run(run, tier, seed, replay=None):
         data["observed"] = n
         if n != expected:
             kindv = "well-formed-header-flagged" if expected == 0 else ("mutation-not-flagged" if n == 0 else "mutation-flagged-twice")
-            found |= run.violation(kindv, data, finding_id=fid)
+            use_fid = fid
+            if fid == "C13-comments-only" and not (n == 0 and events and all(e_[0] == "IsComment" and e_[1] == "MULT_COMMENT" for e_ in events)):
+                # the recorded finding is precisely: every statement of the file is a block comment in column 1 and NO
+                # diagnostic is emitted (no end-of-file check); anything else on such a file is new
+                use_fid = None
+            found |= run.violation(kindv, data, finding_id=use_fid)
         run.count("search/" + ("well-formed" if expected == 0 else lab[:3]) + "/" + ("family" if kind.startswith("family") else kind), 1,
                   1 if f is not None else 0)
         # the events of the header part are the predicted ones
